@@ -79,6 +79,8 @@ class ExecImpl : public ClauseSink {
   std::vector<RExp> rexps;
   std::vector<RMock> rmocks;
   std::vector<std::unique_ptr<trompeloeil::sequence>> rseqs;
+  std::vector<std::unique_ptr<trompeloeil::sequence>> moved_from_seqs;   // sources of move assignments, not yet destroyed
+  void bury_moved_from_seqs();
   std::vector<trompeloeil::deathwatched<Plain>*> rwatched;
   std::vector<EP> rmons;
   struct RTracer { int id; int kind; std::unique_ptr<RecTracer> rec; std::unique_ptr<StreamRec> str; };
